@@ -106,10 +106,26 @@ package cache
 // The goroutine of SubCache.MergeAll folds merge results into the cache. It must not crash whatever the
 // entity layer reports (C07): only results announced as new or updated carry an entity (element invariant of
 // the results channel, i.e. the contract of dag.MergeAll / identity.MergeAll).
+// cachedFrom: the entity a cache wrapper was built from (definition: set by the sub-cache's makeCached).
+//@ ghost var cachedFrom map[CacheEntity]entity.Interface
+//@ func SubCache.makeCached
+//@   modifies cachedFrom
+//@   defines [wraps] cachedFrom[result] == entity
+// building an excerpt or the index data of an entity only reads it
+//@ func SubCache.makeExcerpt
+//@ func SubCache.makeIndexData
+//@   modifies nothing
+// ... and what it keeps in memory for a bug or identity the pull reported as new or updated is the merged
+// entity that came with the report - also when an older instance was already loaded (C02: "the entity handed
+// back ... is the merged result"; C11: "later edits made through the cache build on the merged history").
 //@ func (*SubCache).MergeAll$1
-//@   props C07 C11
+//@   props C07 C11 C02
 //@   nopanic typeassert
 //@   recvinv results: (elem.Status == entity.MergeStatusNew || elem.Status == entity.MergeStatusUpdated) && elem.Err == nil ==> implements(elem.Entity, EntityT)
+//@   let n = recvcount(results)
+//@   let last = recvat(results, n - 1)
+//@   loop 1
+//@     invariant [merged-entity-is-cached] n > 0 && (last.Status == entity.MergeStatusNew || last.Status == entity.MergeStatusUpdated) && last.Err == nil ==> (last.Id in sc.cached) && cachedFrom[sc.cached[last.Id]] == last.Entity
 
 // ---- resolving by prefix / matcher (C13) ---------------------------------------------------------------
 // The id of an excerpt is a fixed attribute of it.
